@@ -10,17 +10,13 @@ Fixpoint send_all (own: N) (ps: list packet) (i: iface) : list (out unit perr) *
   | [] => ([], i)
   | p :: r => let '(ret, _, i1) := send_packet own [] p i in let '(rets, i2) := send_all own r i1 in (ret :: rets, i2)
   end.
-(* a packet addressed to the sender's own address is looped back locally and not transmitted (unless
-   the sender's address is the broadcast address) *)
-Definition transmitted (own: N) (p: packet) : bool := negb (p_addr p =? own) || (own =? BROADCAST).
-
 Lemma send_all_sent own : forall ps i, i_sends i = [] ->
   i_sent (snd (send_all own ps i)) = i_sent i ++ filter (transmitted own) ps /\ Forall (fun r => r = Val tt) (fst (send_all own ps i)).
 Proof.
   induction ps as [|p r IH]; intros i Hs; cbn [send_all filter]; [rewrite app_nil_r; split; [reflexivity|constructor]|].
   assert (Hsend: send_packet own [] p i =
                  if transmitted own p then (Val tt, [], mkI (i_gets i) [] (i_sent i ++ [p])) else (Val tt, [], i)).
-  { unfold send_packet, transmitted. cbn [handle_packet].
+  { unfold send_packet, transmitted, handle_packet. cbn [handle_go].
     destruct (p_addr p =? own); destruct (own =? BROADCAST); cbn [andb negb orb]; unfold isend; rewrite ?Hs; reflexivity. }
   rewrite Hsend. destruct (transmitted own p).
   - destruct (IH (mkI (i_gets i) [] (i_sent i ++ [p])) eq_refl) as [H1 H2].
@@ -36,8 +32,9 @@ Fixpoint ticks (own: N) (t: table) (gs: list gres) : list (out unit perr) * list
   | [] => ([], [])
   | g :: r => let '(ret, log, _) := tick own t (mkI [g] [] []) in let '(rets, logs) := ticks own t r in (ret :: rets, log ++ logs)
   end.
-Definition deliveries (own: N) (t: table) (p: packet) : list logent :=
-  map (fun kh => (fst kh, h_label (snd kh), p)) (invoked t (owned_addr own p)).
+(* per selected handler, in key order: its entry for p, followed by the nested deliveries of what that handler itself sent to the own
+   address (none when quiet own t: C15_quiet) *)
+Definition deliveries (own: N) (t: table) (p: packet) : list logent := dispatch_log own t p (owned_addr own p).
 
 Lemma ticks_spec own t : forall rs ps,
   filter notnone rs = map RPacket ps -> (forall r, In r rs -> r = RNone \/ exists p, r = RPacket p) ->
